@@ -23,6 +23,8 @@ pub enum Op {
     EpollCtl { epfd: i32, fd: i32 },
     EpollWait { epfd: i32, timeout: i32 },
     Poll { fd: i32, events: i16, timeout: i32 },
+    /// poll(2) on several descriptors (array of `n` pollfd at `ptr` in the caller's memory)
+    PollN { ptr: usize, n: usize, timeout: i32 },
     FutexWait { addr: usize, val: u32, timed: bool },
     Join { task: i32 },
     Yield,
@@ -307,6 +309,16 @@ fn op_enabled(s: &SchedState, t: usize) -> bool {
             },
             Op::EpollWait { epfd, timeout } => timeout == 0 || raw::poll1(epfd, libc::POLLIN) != 0,
             Op::Poll { fd, events, timeout } => timeout == 0 || raw::poll1(fd, events) != 0,
+            Op::PollN { ptr, n, timeout } => {
+                if timeout == 0 {
+                    true
+                } else {
+                    // evaluate on a copy so that the caller's revents are untouched
+                    let src = std::slice::from_raw_parts(ptr as *const libc::pollfd, n);
+                    let mut copy: Vec<libc::pollfd> = src.to_vec();
+                    raw::poll(copy.as_mut_ptr(), n, 0) > 0
+                }
+            },
             Op::FutexWait { addr, val, .. } => (*(addr as *const AtomicU32)).load(Ordering::SeqCst) != val,
             Op::Join { task } => s.tasks[task as usize].finished,
             Op::Yield => true, // gated by wait_others
@@ -318,6 +330,7 @@ fn op_enabled(s: &SchedState, t: usize) -> bool {
 fn has_timer(op: Op) -> bool {
     match op {
         Op::Poll { timeout, .. } => timeout > 0,
+        Op::PollN { timeout, .. } => timeout > 0,
         Op::EpollWait { timeout, .. } => timeout > 0,
         Op::FutexWait { timed, .. } => timed,
         _ => false,
@@ -519,6 +532,7 @@ fn objs_of(op: Op) -> (u64, [u64; 2]) {
         Op::EpollCtl { epfd, fd } => (5, [interpose::obj_of(epfd).0, interpose::obj_of(fd).0]),
         Op::EpollWait { epfd, .. } => (6, [interpose::obj_of(epfd).0, 0]),
         Op::Poll { fd, .. } => (7, [interpose::obj_of(fd).0, 0]),
+        Op::PollN { .. } => (7, [0, 0]),
         Op::FutexWait { addr, .. } => (8, [addr as u64 | (1 << 63), 0]),
         Op::Join { task } => (9, [(task as u64) | (1 << 62), 0]),
         Op::Yield => (10, [0, 0]),
